@@ -8,6 +8,7 @@ import (
 	"io"
 	"math"
 	"math/big"
+	"os"
 	"os/exec"
 	"strconv"
 	"strings"
@@ -20,6 +21,8 @@ type SolverStats struct {
 	Time                time.Duration
 	Queries             int
 }
+
+var slowQueryMs = func() int { n, _ := strconv.Atoi(os.Getenv("GOSX_SLOW_MS")); return n }()
 
 type Solver struct {
 	ts      *TermStore
@@ -220,7 +223,21 @@ func (s *Solver) Check(extra *Term) string {
 		extra = nil
 	}
 	t0 := time.Now()
-	defer func() { s.Stats.Time += time.Since(t0); s.Stats.Queries++ }()
+	defer func() {
+		d := time.Since(t0)
+		s.Stats.Time += d
+		s.Stats.Queries++
+		if slowQueryMs > 0 && d > time.Duration(slowQueryMs)*time.Millisecond {
+			x := "<pc only>"
+			if extra != nil {
+				x = extra.String()
+				if len(x) > 600 {
+					x = x[:600] + "..."
+				}
+			}
+			fmt.Fprintf(os.Stderr, "SLOWQUERY %v: %s\n", d.Round(time.Millisecond), x)
+		}
+	}()
 	if extra != nil {
 		n := s.define(extra)
 		s.send("(push 1)")
